@@ -329,7 +329,7 @@ def _leibniz(fc, L: RuleResult):
             elif len(ds) == 2 and sum(1 for x in ds if isinstance(x, ast.Constant) and x.value is None) == 1:
                 term = [x for x in ds if not (isinstance(x, ast.Constant) and x.value is None)][0]
                 from ..model import effective_conditions
-                conds = effective_conditions(enclosing_stmt(term))
+                conds = effective_conditions(term)
                 gates = [t_ for t_, v_ in conds if v_ and t_.endswith("%stensor" % lim)]
                 if gates:
                     d = _D()
